@@ -9,11 +9,13 @@ from .common import chunks
 
 ID = "C11"
 RULE = (
-    "10 simple queries (two with the fake root) and every compound query with 1..3 union/intersection operators over them (8 + 128 + 2048 + 32768/8 "
+    "10 simple queries (two with the fake root), 5 more whose filter refers to $ (alone and in 1-operator compounds) and every compound query with 1..3 union/intersection operators over them (8 + 128 + 2048 + 32768/8 "
     "sampled-free: 3-operator queries use the first 5 operands) x every array/object document of Univ(1,3) over leaves "
     "{2,'a',null} plus 24 nested documents; each evaluated through 14 entry points (env and compiled findall, finditer, match, "
     "query().values(), and the document given as JSON text, StringIO and BytesIO) and compared with the fold of the simple "
     "results (union = concatenation, intersection = left restricted to values produced by right, left to right). "
+    "NEST: every (a op b) op c over 5 simple queries built with the CompoundJSONPath constructor around a compiled compound path "
+    "and union()/intersection(), through 5 entry points. "
     "TXT: documents that are not containers (strings whose content looks like JSON text, numbers, null, true) can only be "
     "given as JSON text or files: 10 simple queries (6 with the fake root, 2 with $ in a filter) and their 1- and 2-operator "
     "compounds x 12 such texts x 10 entry points, against the fold of the simple results on the same text. "
@@ -21,7 +23,7 @@ RULE = (
 )
 ASSUMPTIONS = [
     "simple-query results are taken from the compiled simple query itself (its conformance is C01/C02's subject); the fold is the model",
-    "documents contain no 1/true/1.0 collisions, so membership by typed equality and by == coincide",
+    "intersection restricts to JSON values produced by the right operand: typed equality (true is not 1, 1 == 1.0)",
     "text/file forms only for array and object documents (as the property states)",
 ]
 
@@ -32,6 +34,9 @@ NESTED = [
     {"b": {"a": 2, "b": {"a": "a"}}, "a": 2}, [{"a": {"a": 2}}, 2], {"a": [], "b": {}}, [[], {}], {"a": None, "b": [None]},
     [{"a": 2, "b": 2}, {"a": 2, "b": 2}], {"a": "a", "b": "a"}, ["a", {"a": "a"}], {"a": [2, 2], "b": 2},
     [{"a": [2, {"a": 2}]}], {"a": {"a": 2}, "b": {"a": 2}}, [2], ["a"], {"a": 2}, {"b": "a"},
+    # values that differ only by boolean vs number (at any depth): never the same JSON value
+    {"a": 1, "b": True}, {"a": [1, 0], "b": [True, False]}, [1, True, 0, False, 1.0], {"a": {"a": 0}, "b": {"a": False}},
+    [{"a": True}, {"a": 1}, {"b": [1]}, {"b": [True]}],
 ]
 
 
@@ -40,8 +45,19 @@ def docs(tier="thorough"):
     return out + NESTED
 
 
+# queries whose filter refers to the document root: the root every entry point hands to the filter must be the loaded
+# document, whatever form the argument had
+ROOTREF = ["$[?@ == $.b]", "$.a[?@ == $.b]", "$[?$.a]", "$..[?@.a == $.b]", "$.*[?$.b == 2]"]
+
+
 def queries(tier):
     out = [(q,) for q in SIMPLE]
+    out += [(q,) for q in ROOTREF]
+    for q in ROOTREF:
+        for r in SIMPLE[:3] + ROOTREF[:2]:
+            for op in "|&":
+                out.append((q, op, r))
+                out.append((r, op, q))
     for n in (1, 2, 3):
         pool = (SIMPLE[:8] if tier == "quick" else SIMPLE) if n < 3 else (SIMPLE[:4] if tier == "quick" else SIMPLE[:6])
         for qs in itertools.product(pool, repeat=n + 1):
@@ -81,6 +97,7 @@ def bounds(tier, seed):
 def plan(tier, seed):
     n = len(queries(tier))
     out = [("Q", tier, lo, min(n, lo + 40)) for lo in range(0, n, 40)]
+    out.append(("NEST",))
     m = len(txt_queries(tier))
     out += [("TXT", tier, lo, min(m, lo + 200)) for lo in range(0, m, 200)]
     return out
@@ -112,10 +129,13 @@ _SIMPLE_C = {}
 
 
 def run_shard(shard, acc):
-    _, tier, lo, hi = shard
+    tier, lo, hi = (shard + (None, None, None))[1:4]
     if shard[0] == "TXT":
         for parts in txt_queries(tier)[lo:hi]:
             _check_txt(parts, acc)
+        return
+    if shard[0] == "NEST":
+        _nest(acc)
         return
     ds = docs(tier)
     for parts in queries(tier)[lo:hi]:
@@ -145,6 +165,59 @@ def _entries(text, p, doc, with_forms):
             x for x in p.findall(doc)[1:]]
         yield "env.match(text)", lambda: (lambda m: [] if m is None else [m.obj])(jsonpath.match(text, t))[:1] + [
             x for x in p.findall(doc)[1:]]
+
+
+def _nest(acc, record=True, only=None):
+    """Compound paths built with the public constructor and union()/intersection(), with a compound path as the first
+    operand of another one (the constructor takes either kind): same fold, same agreement of the entry points."""
+    import asyncio
+
+    import jsonpath
+    from jsonpath import CompoundJSONPath
+
+    env = jsonpath.DEFAULT_ENV
+    pool = SIMPLE[:5]
+    ds = docs("quick")[::7] + NESTED[:6]
+    for a in pool:
+        for b in pool:
+            for c in pool:
+                for o1 in "|&":
+                    for o2 in "|&":
+                        key = [a, o1, b, o2, c]
+                        if only is not None and key != only:
+                            continue
+                        inner = env.compile("%s %s %s" % (a, o1, b))
+                        outer = CompoundJSONPath(env=env, path=inner)
+                        outer = outer.union(env.compile(c)) if o2 == "|" else outer.intersection(env.compile(c))
+                        for di, doc in enumerate(ds):
+                            exp = fold([_simple(x).findall(doc) for x in (a, b, c)], [o1, o2])
+                            bad = None
+                            try:
+                                for name, fn in (("findall", lambda: outer.findall(doc)),
+                                                 ("finditer", lambda: [m.obj for m in outer.finditer(doc)]),
+                                                 ("query", lambda: list(outer.query(doc).values())),
+                                                 ("findall(text)", lambda: outer.findall(json.dumps(doc))),
+                                                 ("findall_async", lambda: asyncio.run(outer.findall_async(doc)))):
+                                    got = fn()
+                                    if not jeq_list(got, exp):
+                                        bad = (name, got)
+                                        break
+                            except Exception as e:  # noqa: BLE001
+                                bad = ("exception", "%s: %s" % (type(e).__name__, e))
+                            if record:
+                                acc.case("NEST", (tuple(key), di), outcome=tuple(ckey(v) for v in exp), nontrivial=bool(exp), trans=5)
+                                acc.count("nest.%s" % ("some" if exp else "none"))
+                            if bad:
+                                acc.violation("NEST", "nested-compound." + bad[0], {"nest": key, "doc": doc}, expected=exp, observed=bad[1])
+                                break
+
+
+def _simple(text):
+    import jsonpath
+
+    if text not in _SIMPLE_C:
+        _SIMPLE_C[text] = jsonpath.compile(text)
+    return _SIMPLE_C[text]
 
 
 def _check_txt(parts, acc, record=True, only_doc=None):
@@ -256,10 +329,13 @@ def _check(parts, ds, acc, record=True, only_doc=None):
             return
 
 
-REQUIRE = {"txt.0.some": 10, "txt.1.some": 50, "txt.2.some": 50, "ops.0.some": 10, "ops.1.some": 100, "ops.2.some": 100, "ops.3.some": 100, "ops.1.none": 10}
+REQUIRE = {"nest.some": 100, "txt.0.some": 10, "txt.1.some": 50, "txt.2.some": 50, "ops.0.some": 10, "ops.1.some": 100, "ops.2.some": 100, "ops.3.some": 100, "ops.1.none": 10}
 
 
 def check_case(sub, case, acc):
+    if sub == "NEST":
+        _nest(acc, record=False, only=case["nest"])
+        return
     if sub == "TXT":
         _check_txt(tuple(case["parts"]), acc, record=False, only_doc=case["doc_text"])
         return
@@ -267,6 +343,8 @@ def check_case(sub, case, acc):
 
 
 def shrink(sub, case):
+    if sub == "NEST":
+        return
     parts = case["parts"]
     n = len(parts) // 2
     for i in range(n + 1):
@@ -282,6 +360,8 @@ def shrink(sub, case):
 
 
 def signature(sub, case, v):
+    if sub == "NEST":
+        return "C11.NEST.%s" % v["kind"]
     parts = case.get("parts") or []
     ops = "".join(parts[1::2])
     obs = v.get("observed")
